@@ -28,7 +28,7 @@ def run(rep, work, tier, seed):
         conf = dict(NTasks=3, Types=["A", "B"], Vals=[1, 2], MaxDepth=2, MaxOps=4, SupKind="tiny", Bug="none")
     rep.extra["constants"] = dict(model=mc, conformance=conf)
     leg_m(rep, work, SPEC, f"mc_{tier}", cfg_text(mc, spec="Spec", invariants=INVS, properties=PROPS),
-          expect_actions=["Enter", "Leave", "Start", "End"], timeout=3000)
+          expect_actions=["Enter", "Leave", "Start", "End", "Try", "Raise"], timeout=3000)
     if tier == "thorough":
         small = dict(NTasks=2, Types=["A", "B"], Vals=[1, 2], MaxDepth=2, MaxOps=3, SupKind="tiny")
         leg_mutant(rep, work, SPEC, "mutant_leak_group",
